@@ -10,13 +10,16 @@ template <typename T> static rc::Gen<T> UNI(T lo, T hi) { return rc::gen::resize
 enum { T_SET, T_GET, T_DEL };
 struct Op { int t, vt, name, val, rep; };  // vt: 1 INT 2 STR 3 BOOL 4 JSON (jwt_value_type_t)
 
-static const char *NAMES[] = {"a", "b", "alg", "\xc3\xa9\xe2\x82\xac", "exp", "", nullptr};
-static const int NNAMES = 7;
+static const std::string LONGNAME = "a" + std::string(256, 'x');   // differs from "a" only beyond 256 characters
+static const char *NAMES[] = {"a", "b", "alg", "\xc3\xa9\xe2\x82\xac", "exp", "", nullptr, LONGNAME.c_str()};
+static const int NNAMES = 8;
 static const long INTS[] = {0, 1, -1, LONG_MIN, LONG_MAX, 1700000000, 42};
 static const char *STRS[] = {"x", "", "y", "h\xc3\xa9llo", "a\"b\\c", nullptr, "none"};
 static const int BOOLS[] = {0, 1, 7, -1};
-static const char *JSONS[] = {"{\"k\":1}", "[1,2,{\"z\":null}]", "{}", "[]", "{\"a\":9,\"c\":true,\"alg\":\"x\"}", "{\"b\":{\"n\":[1]},\"d\":\"s\"}", "5", "\"str\"", "null", "{\"k\":", "", "{\"a\":1,\"a\":2}", "{\"a\":1} trailing", nullptr, "true", "{\"\":1}"};
-static const int NINTS = 7, NSTRS = 7, NBOOLS = 4, NJSONS = 16;
+static const char *JSONS[] = {"{\"k\":1}", "[1,2,{\"z\":null}]", "{}", "[]", "{\"a\":9,\"c\":true,\"alg\":\"x\"}", "{\"b\":{\"n\":[1]},\"d\":\"s\"}", "5", "\"str\"", "null", "{\"k\":", "", "{\"a\":1,\"a\":2}", "{\"a\":1} trailing", nullptr, "true", "{\"\":1}",
+                              // members of every JSON type under the names the typed getters ask for (reals and null can only arrive this way)
+                              "{\"a\":1.5,\"b\":null,\"exp\":2.5e3}", "{\"a\":[1],\"b\":\"s\",\"exp\":true}", "{\"a\":1.0,\"b\":false,\"alg\":7}", "{\"a\":{\"k\":{\"old\":1}},\"b\":-0.0}", "{\"a\":{\"k\":{\"new\":2}},\"exp\":1e400}"};
+static const int NINTS = 7, NSTRS = 7, NBOOLS = 4, NJSONS = 21;
 
 static std::string op_str(const Op &o) {
   const char *n = NAMES[o.name % NNAMES];
@@ -241,9 +244,10 @@ int main(int argc, char **argv) {
   std::vector<Op> lastfail; int lasttk = 0; std::string lastwhy, lasttrace;
   auto genOp = rc::gen::exec([]() { Op o; o.t = *rc::gen::weightedElement<int>({{5, T_SET}, {3, T_GET}, {1, T_DEL}}); o.vt = *UNI(1, 5); o.name = *rc::gen::weightedElement<int>({{4, 0}, {3, 1}, {2, 2}, {1, 3}, {1, 4}, {1, 5}, {1, 6}}); o.val = *UNI(0, 64); o.rep = *UNI(0, 2); return o; });
   bool ok = rc::check("C15: typed map", [&]() {
+    if (v::shrink_exhausted()) return;
     int tk = *UNI(0, 6); int len = *UNI(1, 41);
     std::vector<Op> ops = *rc::gen::container<std::vector<Op>>(len, genOp);
-    if (!one(tk, ops, true)) { lastfail = ops; lasttk = tk; lastwhy = run_seq(tk, ops); lasttrace = TRACE; RC_FAIL(lastwhy); }
+    if (!one(tk, ops, true)) { lastfail = ops; lasttk = tk; lastwhy = run_seq(tk, ops); lasttrace = TRACE; v::fail_seen()++; RC_FAIL(lastwhy); }
   });
   if (!ok && !lastwhy.empty()) { TRACE = lasttrace; st.violation("C15:" + lastwhy, "typed-map model disagrees on " + std::string(TKN[lasttk]) + ": " + lasttrace.substr(0, 600), case_json(lasttk, lastfail)); }
   return finish();
